@@ -69,6 +69,19 @@ What the misses had in common, and the general lesson applied across checks:
   only after everything else was serialized, operations listed as unpublished while they are applied, earlier operations anchored
   later, operations after a degraded recover, optional members added (not just replaced) by the corruption engine, and a
   first-use storm as the first case of every worker process;
+* *a second layer that looked redundant was the only one that held* (round 9: clean-ups): the applier's own delta validation, the
+  width checks next to an on-curve test, the defensive copy behind an accessor, the escape branch "the parser already refuses",
+  the emptiness check "the constructors already make". Each constraint is now also asked through the route that skips the other
+  layer: empty / null / misplaced value lists of every action as failure classes, non-text JWK members, whole-document JSON
+  pointers, wrong-width keys against a genuine signature, accessor results overwritten by the caller, text with control and
+  non-BMP characters wherever text is hashed, whole artefacts (not only their members) replaced by hostile values;
+* *something remembered under a key that omits what matters* (round 10: additions - caches, pools, fast paths, tolerances): the
+  answer to B depends on whether A was asked before. Monitors now ask in pairs inside one process: batch-mode look-up then
+  request-time parse, in-window application then the same operation re-anchored outside its window, genuine key then the same
+  coordinates with the boundary moved, a point then its mirror point, a text as also-known-as entry then as service endpoint, a
+  transformation that fails half-way then an ordinary one, a buffer hashed, edited in place and hashed again, twin creates that
+  differ in one optional member, 40 M same-length documents against anything keyed by a short digest, and a volume case that
+  overflows any bounded memory while several goroutines use it;
 * *a hang ended as "inconclusive"* (C20 recursive read lock): lock-ups of the registries are detected inside the case with the
   goroutine dump as witness, and a C20 case timeout is a violation.
 
